@@ -34,6 +34,12 @@ POOL = [
     # the two zeros (equal as numbers, different bit patterns), alone and inside containers
     ("(-0.0)", "float", -0.0, "Float"), ("(0.0 * -1.0)", "float", -0.0, "Float"), ("R.new(-0.0)", "float", -0.0, "R"),
     ("[0.0]", "none", None, ""), ("[-0.0]", "none", None, ""), ("{a: 0.0}", "none", None, ""), ("{a: -0.0}", "none", None, ""),
+    # strings that are not valid UTF-8 (bitwise not of ASCII): distinct bytes, same text after lossy decoding
+    ('(/~"a")', "str", "\x9e", "Str"), ('(/~"b")', "str", "\x9d", "Str"), ('(/~"ab")', "str", "\x9e\x9d", "Str"), ('(/~"a" + "z")', "str", "\x9ez", "Str"),
+    # maps built from several ** operands that share keys, next to maps with the same number of keys
+    ("%{**%{[1]: 2}, **%{[1]: 2}}", "none", None, ""), ("%{[1]: 2, [2]: 2}", "none", None, ""), ("%{[2]: 2, [1]: 2}", "none", None, ""), ("%{**%{[1]: 2}, **%{[2]: 2}}", "none", None, ""),
+    ("%{[1]: 2}", "none", None, ""), ("%{**%{{a: 1}: 2, [1]: 2}, **%{{a: 1}: 2}}", "none", None, ""), ("%{{a: 1}: 2, [1]: 2}", "none", None, ""),
+    ("{**{a: 1}, **{a: 1}}", "none", None, ""), ("[%{**%{[1]: 2}, **%{[1]: 2}}]", "none", None, ""), ("[%{[1]: 2, [2]: 2}]", "none", None, ""),
 ]
 OPS = [("eq", "=="), ("ne", "!="), ("lt", "<"), ("le", "<="), ("gt", ">"), ("ge", ">="), ("cmp", "<=>")]
 
